@@ -44,6 +44,9 @@ mod remote_state;
 /// Verification hooks of the path state, compiled only with `--cfg iroh_verif`.
 #[cfg(iroh_verif)]
 pub use self::remote_state::path_state_verif_hooks;
+/// Verification hooks of the remote state actor, compiled only with `--cfg iroh_verif`.
+#[cfg(iroh_verif)]
+pub use self::remote_state::verif_hooks as remote_state_verif_hooks;
 
 // TODO: use this
 // /// Number of endpoints that are inactive for which we keep info about. This limit is enforced
